@@ -67,6 +67,8 @@ func exec(op string) (res string) {
 		return fmt.Sprint(gocql.VerifHashLess("random", hx(2), hx(4)))
 	case "rkm", "rkmx":
 		return parseRkm(w).run()
+	case "rkn", "rknx":
+		return parseRkn(w).run()
 	case "ringsort":
 		return execRingsort(w)
 	case "lessr":
@@ -451,6 +453,16 @@ func main() {
 				out.Case(op, exec(op), fmt.Sprintf("qrke/%d/steps%d", n, k), true)
 			}
 		}
+	}
+	// name / index resolution: column, table and keyspace names of any spelling, duplicate markers, decoy tables
+	for i := 0; i < 3000*mult; i++ {
+		c, sb, cls := genRkn(r, g)
+		name := "rkn"
+		if !sb {
+			name = "rknx"
+		}
+		op := c.op(name)
+		out.Case(op, exec(op), cls, true)
 	}
 	out.Close(nil)
 }
